@@ -41,8 +41,8 @@ def cases(tier, seed):
                             continue
                         if kind == 'from_vector' and qs != 'zero':
                             continue
-                        for entries in ('complex', 'real'):
-                            if kind in ('identity', 'from_vector') and entries == 'real':
+                        for entries in ('complex', 'real', 'mixed'):
+                            if kind in ('identity', 'from_vector') and entries != 'complex':
                                 continue
                             if quick and kind == 'chain' and (qs in ('boson', 'large') or d == 1):
                                 continue
@@ -86,15 +86,23 @@ class _Case:
         Dmax = Dmax or self.c['Dmax']
         return 1 if self.rng.random() < 0.1 else int(self.rng.integers(2, Dmax + 1))
 
+    def _entries(self):
+        # 'mixed': every operand gets its own entry kind (real first operand with complex second, integers, ...)
+        e = self.c['entries']
+        if e != 'mixed':
+            return e
+        self._nobj = getattr(self, '_nobj', 0) + 1
+        return ('real', 'complex', 'int', 'complex', 'real')[(self.c['seed'] + self._nobj) % 5]
+
     def mps(self, q0, q1, order=None):
         rng = self.rng
-        return H.rand_mps(rng, self.qd, self.L, self._dmax(), q0, q1, self.c['entries'],
+        return H.rand_mps(rng, self.qd, self.L, self._dmax(), q0, q1, self._entries(),
                           bstyle=BSTYLES[int(rng.integers(len(BSTYLES)))],
                           order=order or ('random', 'sorted', 'reverse')[int(rng.integers(3))])
 
     def mpo(self, q0, q1, order=None, Dmax=None):
         rng = self.rng
-        return H.rand_mpo(rng, self.qd, self.L, self._dmax(Dmax), q0, q1, self.c['entries'],
+        return H.rand_mpo(rng, self.qd, self.L, self._dmax(Dmax), q0, q1, self._entries(),
                           bstyle=BSTYLES[int(rng.integers(len(BSTYLES)))],
                           order=order or ('random', 'sorted', 'reverse')[int(rng.integers(3))])
 
